@@ -31,11 +31,12 @@ import (
 )
 
 type Op struct {
-	Kind  string `json:"kind"`            // read write transform
-	Len   int    `json:"len,omitempty"`   // write: length class index
-	TKind string `json:"tkind,omitempty"` // transform: longer shorter same error unchanged
-	Delta int    `json:"delta,omitempty"`
-	Yield int    `json:"yield,omitempty"` // yields inside the transform function
+	Kind    string `json:"kind"`            // read write transform
+	Len     int    `json:"len,omitempty"`   // write: length class index
+	TKind   string `json:"tkind,omitempty"` // transform: longer shorter same error unchanged
+	Delta   int    `json:"delta,omitempty"`
+	Yield   int    `json:"yield,omitempty"`    // yields inside the transform function
+	EOFData bool   `json:"eof_data,omitempty"` // write: the content reader returns its last chunk together with io.EOF
 }
 
 type TaskPlan struct {
@@ -71,6 +72,7 @@ func genOp(t *rapid.T) Op {
 	case k <= 6:
 		op.Kind = "write"
 		op.Len = rapid.IntRange(0, len(lengths)-1).Draw(t, "len")
+		op.EOFData = rapid.IntRange(0, 3).Draw(t, "eofdata") == 0
 	default:
 		op.Kind = "transform"
 		op.TKind = rapid.SampledFrom([]string{"longer", "shorter", "same", "error", "unchanged", "longer", "shorter"}).Draw(t, "tkind")
@@ -209,8 +211,9 @@ var model = porcupine.Model{
 }
 
 type chunkReader struct {
-	data  []byte
-	chunk int
+	data    []byte
+	chunk   int
+	eofData bool // return (n>0, io.EOF) with the last chunk, as io.Reader allows
 }
 
 func (r *chunkReader) Read(p []byte) (int, error) {
@@ -220,6 +223,9 @@ func (r *chunkReader) Read(p []byte) (int, error) {
 	n := min(len(p), r.chunk, len(r.data))
 	copy(p, r.data[:n])
 	r.data = r.data[n:]
+	if r.eofData && len(r.data) == 0 {
+		return n, io.EOF
+	}
 	return n, nil
 }
 
@@ -318,7 +324,7 @@ func run(t *testing.T, plan any, keep bool) *simcheck.Outcome {
 		case "write":
 			v := value(opid, lengths[op.Len])
 			eid := invoke(client, input{kind: "write", id: opid})
-			err := lockedfile.Write(path, &chunkReader{v, max(p.Chunk, len(v)/12)}, 0o666)
+			err := lockedfile.Write(path, &chunkReader{v, max(p.Chunk, len(v)/12), op.EOFData}, 0o666)
 			ret(client, eid, output{err: err != nil})
 			if err != nil {
 				out.Violate("write-error", "Write failed without an injected fault: %v", err)
@@ -522,6 +528,7 @@ var harness = &simcheck.Harness{
 		"a Transform that returned an error must leave the contents it was given (single fault); when the rollback is made to fail too (double fault) only absence of panic/deadlock is asserted",
 		"faults are injected only into Transform (the statement promises rollback only there); a failing Write is out of scope",
 	},
+	ManualGC:         true,
 	RequiredCounters: []string{"flock_calls", "histories_checked", "ops_started_while_another_in_flight", "probe_lock_request_blocked"},
 }
 
